@@ -196,9 +196,24 @@ pub fn build_goal(kind: GoalKind, transport: Arc<dyn TransportCost>) -> GoalCont
 
 pub struct ValueKey;
 
+/// The task templates plus `n` filler services (no demand, no window, no service time) spread over the locations 1..3:
+/// material for tours long enough for the evaluator's sampled leg selection.
+pub fn tasks_with_fillers(n: usize) -> Vec<TaskT> {
+    let mut all = tasks();
+    let first_job = all.iter().map(|t| t.job).max().unwrap() + 1;
+    for i in 0..n {
+        let id: &'static str = Box::leak(format!("f{i}").into_boxed_str());
+        all.push(TaskT { id, demand: DemandKind::None, places: vec![place(1 + (i * 3) / n.max(1), 0., &[(0., MAXT)])], job: first_job + i, value: 0. });
+    }
+    all
+}
+
 impl Lab {
     pub fn new(goal: GoalKind) -> Lab {
-        let tasks = tasks();
+        Lab::with_tasks(goal, tasks())
+    }
+
+    pub fn with_tasks(goal: GoalKind, tasks: Vec<TaskT>) -> Lab {
         let vehicles = vehicles();
         let durations: Vec<f64> = (0..LOCS).flat_map(|i| (0..LOCS).map(move |j| dur(i, j))).collect();
         let distances: Vec<f64> = (0..LOCS).flat_map(|i| (0..LOCS).map(move |j| dist(i, j))).collect();
